@@ -9,12 +9,17 @@
   `parse P` is the model of `parse_single_name_into_parts(name, strict=True)`; `scan P` its first
   half (comma sections of words, each word with its case); `P` ranges over every classification
   of characters by `str.isalpha` / `str.isupper` - no hypothesis about them is needed.
-  A word is lower-case (`isLowerW`) when the case the scanner computed for it is 0.
+  A word is lower-case (`isLowerW`) when the case the scanner computed for it is 0; by `case_spec`
+  that case is `wordCase P w` (Names/Case.lean: BibTeX's case of the word as a function of the
+  word's own characters), so `rule_form1_case` / `rule_form23_case` / `rule_form3_case` state the
+  partition rule on the texts of the words alone (`Rule1T`, `Rule23T` in Lemmas/NamesCase.lean:
+  "lower-case word" = `wordCase P w = 0`).
 -/
 import BibVerif.Lemmas.NamesAssign
 import BibVerif.Lemmas.NamesScan
 import BibVerif.Lemmas.NamesMw
 import BibVerif.Lemmas.NamesMerge
+import BibVerif.Lemmas.NamesCase
 namespace Bib.C13
 open Bib NameP Names
 
@@ -133,6 +138,67 @@ theorem rule_form3 (n : Str) (p0 j f : List Word) (h : scan P n = .ok [p0, j, f]
   have : assign [p0, j, f] = (assign23 p0 j f true).toNameParts := rfl
   exact ⟨V, L, hr, by rw [parse_of_scan P h, this, he]; simp⟩
 
+/-- **C13 (case of a word).**  The case the one-pass scanner records for a word - computed inline,
+interleaved with sections, separators and the words before it - is BibTeX's case of that word as a
+function of the word's own characters: `wordCase P w` (`1` upper, `0` lower, `-1` caseless), a fold
+over the characters of `w` alone in which the first letter that counts decides; letters count at
+brace depth 0, as the character of an escape that does not open a special character, and inside a
+special character `{\cs …}` after its control sequence; ordinary brace groups are skipped.
+For every name, every classification of characters, every word of every section. -/
+theorem case_spec (n : Str) (secs : List (List Word)) (h : scan P n = .ok secs) :
+    ∀ sec ∈ secs, ∀ w ∈ sec, caseInt w.2 = wordCase P w.1 := by
+  intro sec hs w hw
+  unfold wordCase
+  rw [scan_cases P h sec hs w hw]
+
+/-- the same in the scanner's own type of cases (`none` caseless, `some false` lower, `some true` upper) -/
+theorem case_spec_c (n : Str) (secs : List (List Word)) (h : scan P n = .ok secs) :
+    ∀ sec ∈ secs, ∀ w ∈ sec, w.2 = wordCaseC P w.1 :=
+  scan_cases P h
+
+/-- "lower-case word" (`isLowerW`, the notion `Rule1` / `Rule23` are stated with) is
+`wordCase P w = 0` for every word the scanner returns -/
+theorem lower_iff_wordCase (n : Str) (secs : List (List Word)) (h : scan P n = .ok secs) :
+    ∀ sec ∈ secs, ∀ w ∈ sec, (isLowerW w = true ↔ wordCase P w.1 = 0) ∧
+      (isLowerW w = false ↔ wordCase P w.1 ≠ 0) := by
+  intro sec hs w hw
+  have := scan_cases P h sec hs w hw
+  exact ⟨isLowerW_iff P this, isLowerW_false_iff P this⟩
+
+/-- **C13 (rule, comma-free form, on the texts alone).**  `rule_form1` with "lower-case" spelled
+out: for three or more words the parts `F V L` are lists of strings with `Rule1T`: they concatenate
+to the words of the section, no word of First has `wordCase = 0`, von (if any) begins and ends with
+a word of `wordCase = 0`, Last is non-empty, only its final word may have `wordCase = 0`, and it is
+one word when von is empty.  `Rule1T` determines `F V L` (`rule_form1_case_unique`). -/
+theorem rule_form1_case (n : Str) (p0 : List Word) (h : scan P n = .ok [p0]) (h3 : 3 ≤ p0.length) :
+    ∃ F V L : List Str, Rule1T P (words p0) F V L ∧
+      parse P n = .ok { first := F, von := V, last := L, jr := [] } := by
+  obtain ⟨F, V, L, hr, hp⟩ := (rule_form1 P n p0 h).2.2 h3
+  exact ⟨words F, words V, words L, rule1_text P hr (scan_cases P h p0 (by simp)), hp⟩
+
+theorem rule_form1_case_unique {p0 F V L F' V' L' : List Str}
+    (h : Rule1T P p0 F V L) (h' : Rule1T P p0 F' V' L') : F = F' ∧ V = V' ∧ L = L' :=
+  rule1T_unique P h h'
+
+/-- **C13 (rule, comma forms, on the texts alone).**  `rule_form23` / `rule_form3` with
+"lower-case" spelled out (`Rule23T`): von ends with the last word of `wordCase = 0` that is not the
+final word of the first section; Last is the rest. -/
+theorem rule_form23_case (n : Str) (p0 f : List Word) (h : scan P n = .ok [p0, f]) :
+    ∃ V L : List Str, Rule23T P (words p0) V L ∧
+      parse P n = .ok { first := words f, jr := [], von := V, last := L } := by
+  obtain ⟨V, L, hr, hp⟩ := rule_form23 P n p0 f h
+  exact ⟨words V, words L, rule23_text P hr (scan_cases P h p0 (by simp)), hp⟩
+
+theorem rule_form3_case (n : Str) (p0 j f : List Word) (h : scan P n = .ok [p0, j, f]) :
+    ∃ V L : List Str, Rule23T P (words p0) V L ∧
+      parse P n = .ok { first := words f, jr := words j, von := V, last := L } := by
+  obtain ⟨V, L, hr, hp⟩ := rule_form3 P n p0 j f h
+  exact ⟨words V, words L, rule23_text P hr (scan_cases P h p0 (by simp)), hp⟩
+
+theorem rule_form23_case_unique {p0 V L V' L' : List Str}
+    (h : Rule23T P p0 V L) (h' : Rule23T P p0 V' L') (hne : p0 ≠ []) : V = V' ∧ L = L' :=
+  rule23T_unique P h h' hne
+
 /-- **C13 (invalid names).**  `parse` fails - always with one of the four `InvalidNameError`
 reasons, the model has no other failure mode - exactly for names with unbalanced braces, more than
 two top-level commas, or a trailing comma (`Invalid`, independent recursions over the text). -/
@@ -197,6 +263,31 @@ example : scan asciiChars "AA bb~CC".toList =
 /-- an instance of the hypotheses of `rule_form3` / `sections_partition` (three sections) -/
 example : (scan asciiChars "de la Vall{\\'e}e Poussin, Jr, Charles".toList).toOption.map (·.map words) =
     some [["de".toList, "la".toList, "Vall{\\'e}e".toList, "Poussin".toList], ["Jr".toList], ["Charles".toList]] := by
+  decide +kernel
+
+/-- `wordCase` on concrete words: special characters `{\'E}x` (upper: the `E` after the control
+sequence `\'`), `{\'e}x` (lower), `{\relax ab}` (lower: the letters of `\relax` and the blank that
+ends it do not count), `{\relax Ab}` (upper), an ordinary brace group `{Ab}` (caseless: skipped),
+`{Ab}c` (lower: the first depth-0 letter), `\x1` (lower: the escaped `x`), `\X` (upper), `{x\Y}`
+(upper: the escape is not at the brace start, so its character counts even inside the group), `{\1Ab}` (upper: the one non-letter `1` ends the
+control sequence), `{{\'e}}z` (lower by `z`: the escape is at the start of the inner group, whose
+special character then counts - `e`), `12` and the empty word (caseless), `A\` (trailing backslash) -/
+example : wordCase asciiChars "{\\'E}x".toList = 1 ∧ wordCase asciiChars "{\\'e}x".toList = 0 ∧
+    wordCase asciiChars "{\\relax ab}".toList = 0 ∧ wordCase asciiChars "{\\relax Ab}".toList = 1 ∧
+    wordCase asciiChars "{Ab}".toList = -1 ∧ wordCase asciiChars "{Ab}c".toList = 0 ∧
+    wordCase asciiChars "\\x1".toList = 0 ∧ wordCase asciiChars "\\X".toList = 1 ∧
+    wordCase asciiChars "{x\\Y}".toList = 1 ∧ wordCase asciiChars "{\\1Ab}".toList = 1 ∧
+    wordCase asciiChars "{{\\'e}}z".toList = 0 ∧ wordCase asciiChars "12".toList = -1 ∧
+    wordCase asciiChars [] = -1 ∧ wordCase asciiChars "a\\".toList = 0 ∧
+    wordCase asciiChars "{\\ a}B".toList = 1 := by
+  decide +kernel
+
+/-- an instance of `case_spec` / `rule_form1_case`: the scanner's cases for a name with special
+characters, and the per-word function on the same words -/
+example : scan asciiChars "{\\'E}x {\\relax ab} {Ab} \\x1".toList =
+      .ok [[("{\\'E}x".toList, some true), ("{\\relax ab}".toList, some false), ("{Ab}".toList, none),
+            ("\\x1".toList, some false)]] ∧
+    ["{\\'E}x", "{\\relax ab}", "{Ab}", "\\x1"].map (fun w => wordCase asciiChars w.toList) = [1, 0, -1, 0] := by
   decide +kernel
 
 /-- the four invalid shapes, and a valid one -/
